@@ -54,6 +54,17 @@ PubCOK(e) ==
   /\ e.verify = "ok"
   /\ \A f \in {"verify_shorter", "verify_longer", "verify_padded", "verify_other_commitment", "verify_no_commitment"} : e[f] # "ok"
 
+\* the big-integer encoder on values outside its domain: a value that fits the limbs of the declared width is encoded as
+\* the specification says (one above the width may also be refused); a value that does not fit is refused, or at least
+\* not answered with a vector that is the encoding of a value that fits (two values would share an encoding)
+EncDomOK(e) ==
+  LET n == NLimbsU(e.nbits)
+      fits == Lt(e.val, Pow2(BigLB * n))
+  IN IF fits
+     THEN IF NumBits(e.val) <= e.nbits THEN e.refused = FALSE /\ e.enc = EncodeU(e.val, n)
+          ELSE e.refused \/ e.enc = EncodeU(e.val, n)
+     ELSE e.refused \/ Len(e.enc) # n \/ ~CanonU(e.enc)
+
 CurveOK(e) ==
   LET c == CurveOf(e.curve) IN
   /\ Trim(e.p) = c.p /\ Trim(e.r) = c.r /\ Trim(e.a) = c.a
@@ -66,7 +77,8 @@ TCurve == l <= Len(Rec) /\ Ev.ev = "Curve" /\ CurveOK(Ev) /\ l' = l + 1
 TPub == l <= Len(Rec) /\ Ev.ev = "Pub" /\ PubOK(Ev) /\ l' = l + 1
 TAcc == l <= Len(Rec) /\ Ev.ev = "Acc" /\ AccOK(Ev) /\ l' = l + 1
 TPubC == l <= Len(Rec) /\ Ev.ev = "PubC" /\ PubCOK(Ev) /\ l' = l + 1
-TraceSpec == TInitL /\ [][THeader \/ TCurve \/ TPub \/ TAcc \/ TPubC]_l
+TEncDom == l <= Len(Rec) /\ Ev.ev = "EncDom" /\ EncDomOK(Ev) /\ l' = l + 1
+TraceSpec == TInitL /\ [][THeader \/ TCurve \/ TPub \/ TAcc \/ TPubC \/ TEncDom]_l
 
 TraceAccepted ==
   LET d == TLCGet("stats").diameter IN
